@@ -731,6 +731,10 @@ pub fn replay_bounded(unit: &str) -> Option<i32> {
         "b_c03_member_tag_classes" => run_grid(unit, contract_member_tag_classes, limit),
         "b_c06_pipeline_defaults" => run_grid(unit, contract_pipeline_integer_defaults, limit),
         "b_c03_pipeline_tag_matrix" => run_grid(unit, contract_pipeline_tag_matrix, limit),
+        "b_c06_pipeline_widths" => run_grid(unit, contract_pipeline_integer_widths, limit),
+        "b_c05_pipeline_extensibility" => run_grid(unit, contract_pipeline_extensibility, limit),
+        "b_c14_pipeline_enumerated" => run_grid(unit, contract_pipeline_enumerated_quick, limit),
+        "b_c14_pipeline_enumerated_full" => run_grid(unit, contract_pipeline_enumerated_full, limit),
         "b_c02_parameterized_components" => run_grid(unit, contract_parameterized_components, limit),
         "b_c14_large_numbers" => run_grid(unit, contract_enumerated_large_numbers, limit),
         "b_c02_nested_collections" => run_grid(unit, contract_generate_nested_collections, limit),
@@ -2537,6 +2541,193 @@ fn struct_or_enum_attrs(generated: &str, name: &str) -> Option<String> {
     let pos = [format!("pub struct {name} "), format!("pub enum {name} ")].iter().filter_map(|h| generated.find(h.as_str())).min()?;
     let start = generated[..pos].rfind("# [derive").unwrap_or(0);
     Some(generated[start..pos].to_string())
+}
+
+/// C06 — the property's own boundary set through the whole pipeline: (lower, upper) from {MIN, +-2^k, +-2^k+-1 for k in
+/// 7,8,15,16,31,32,63,64, 0, +-1, MAX} with / without extension marker, as type assignment, component, SEQUENCE OF element,
+/// value assignment and DEFAULT: the Rust type is the narrowest that holds [lower, upper] — Integer when extensible or
+/// open-ended — and an emitted literal is declared with that type.
+pub fn contract_pipeline_integer_widths<C: Ctx>(cx: &mut C) {
+    #[cfg(not(kani))]
+    {
+        let mut pts: Vec<Option<i128>> = vec![None];
+        for k in [7u32, 8, 15, 16, 31, 32, 63, 64] { let p = 1i128 << k; for v in [p - 1, p, p + 1, -p - 1, -p, -p + 1] { pts.push(Some(v)); } }
+        for v in [0i128, 1, -1] { pts.push(Some(v)); }
+        let lo = pts[cx.choose(pts.len())];
+        let hi = pts[cx.choose(pts.len())];
+        if !cx.assume(match (lo, hi) { (Some(l), Some(h)) => l <= h, _ => true }) { return; }
+        let ext = cx.any_bool();
+        let position = cx.choose(5);
+        // a value needs a finite bound to be written
+        if !cx.assume(position < 3 || lo.is_some() || hi.is_some()) { return; }
+        let range = format!("({}..{}{})", lo.map_or("MIN".to_string(), |v| v.to_string()), hi.map_or("MAX".to_string(), |v| v.to_string()), if ext { ", ..." } else { "" });
+        let lit = lo.or(hi).unwrap_or(0);
+        let body = match position {
+            0 => format!("A ::= INTEGER {range}"),
+            1 => format!("S ::= SEQUENCE {{ f INTEGER {range} }}"),
+            2 => format!("L ::= SEQUENCE OF INTEGER {range}"),
+            3 => format!("v INTEGER {range} ::= {lit}"),
+            _ => format!("S ::= SEQUENCE {{ f INTEGER {range} DEFAULT {lit} }}"),
+        };
+        cx.describe(|| body.clone());
+        let src = format!("M DEFINITIONS AUTOMATIC TAGS ::= BEGIN {body} END");
+        let out = crate::Compiler::<crate::generator::rasn::Rasn, _>::new().add_asn_literal(&src).compile_to_string();
+        let Ok(res) = out else { vob!(cx, "C06.widths.compiles", false); return; };
+        let g = &res.generated;
+        let want = match (lo, hi) {
+            (Some(l), Some(h)) if !ext => {
+                if l >= 0 { if h <= 255 { "u8" } else if h <= 65535 { "u16" } else if h <= 4294967295 { "u32" } else if h <= 18446744073709551615 { "u64" } else { "Integer" } }
+                else if l >= -128 && h <= 127 { "i8" } else if l >= -32768 && h <= 32767 { "i16" } else if l >= -2147483648 && h <= 2147483647 { "i32" } else if l >= -9223372036854775808 && h <= 9223372036854775807 { "i64" } else { "Integer" }
+            }
+            _ => "Integer",
+        };
+        let lit_text = if lit < 0 { format!("- {}", lit.unsigned_abs()) } else { lit.to_string() };
+        let lit_form = if want == "Integer" { format!("Integer :: from ({lit_text}i128)") } else { lit_text.clone() };
+        match position {
+            0 => { vob!(cx, "C06.widths.type_assignment_is_the_narrowest_type_that_holds_the_range", g.contains(&format!("pub struct A (pub {want})"))); }
+            1 => { vob!(cx, "C06.widths.component_is_the_narrowest_type_that_holds_the_range", g.contains(&format!("pub f : {want} ,"))); }
+            2 => { vob!(cx, "C06.widths.collection_element_is_the_narrowest_type_that_holds_the_range", g.contains(&format!("pub struct AnonymousL (pub {want})"))); }
+            3 => { vob!(cx, "C06.widths.value_literal_is_declared_with_the_type_of_its_constraint",
+                        if want == "Integer" { g.contains(&format!("LazyLock < Integer > = LazyLock :: new (|| {lit_form})")) } else { g.contains(&format!("pub const V : {want} = {lit_form} ;")) }); }
+            _ => { vob!(cx, "C06.widths.default_literal_is_declared_with_the_type_of_the_field", g.contains(&format!("pub f : {want} ,")) && g.contains(&format!("fn s_f_default () -> {want} {{ {lit_form} }}"))); }
+        }
+    }
+    #[cfg(kani)]
+    { let _ = cx; }
+}
+
+/// C14 — the property's own quantifier through the whole pipeline: every enumeration with up to `max_root` root items and up
+/// to `max_add` additions, each identifier-only or numbered from {-1,0,1,2,5} (valid per X.680 §20: explicit numbers
+/// distinct, additions ascending); the generated discriminants are the numbers X.680 §20.3 / §20.6 assign — computed
+/// here by an independent reference — with the identifiers in source order.
+pub fn contract_pipeline_enumerated<C: Ctx>(cx: &mut C, max_root: usize, max_add: usize) {
+    #[cfg(not(kani))]
+    {
+        const ALPHABET: [Option<i128>; 6] = [None, Some(-1), Some(0), Some(1), Some(2), Some(5)];
+        let n_root = 1 + cx.choose(max_root);
+        let marker = cx.any_bool();
+        let n_add = if marker { cx.choose(max_add + 1) } else { 0 };
+        let root: Vec<Option<i128>> = (0..n_root).map(|_| ALPHABET[cx.choose(6)]).collect();
+        let adds: Vec<Option<i128>> = (0..n_add).map(|_| ALPHABET[cx.choose(6)]).collect();
+        // reference numbering (X.680 §20.3, §20.6)
+        let explicit_root: Vec<i128> = root.iter().flatten().copied().collect();
+        let mut distinct = explicit_root.clone(); distinct.sort(); distinct.dedup();
+        if !cx.assume(distinct.len() == explicit_root.len()) { return; }
+        let mut numbers: Vec<i128> = vec![];
+        let mut next = 0i128;
+        for r in &root {
+            match r { Some(v) => numbers.push(*v), None => { while explicit_root.contains(&next) { next += 1; } numbers.push(next); next += 1; } }
+        }
+        let root_numbers = numbers.clone();
+        let mut last_add: Option<i128> = None;
+        let mut valid = true;
+        for a in &adds {
+            let v = match a {
+                Some(v) => { if root_numbers.contains(v) || last_add.map_or(false, |l| *v <= l) { valid = false; } *v }
+                None => { let mut c = last_add.map_or(0, |l| l + 1).max(0); while root_numbers.contains(&c) { c += 1; } c }
+            };
+            numbers.push(v);
+            last_add = Some(v);
+        }
+        if !cx.assume(valid) { return; }
+        let item = |name: String, n: &Option<i128>| match n { Some(v) => format!("{name}({v})"), None => name };
+        let mut items: Vec<String> = root.iter().enumerate().map(|(i, n)| item(format!("r{i}"), n)).collect();
+        if marker { items.push("...".into()); }
+        items.extend(adds.iter().enumerate().map(|(i, n)| item(format!("x{i}"), n)));
+        let body = format!("E ::= ENUMERATED {{ {} }}", items.join(", "));
+        cx.describe(|| body.clone());
+        let src = format!("M DEFINITIONS AUTOMATIC TAGS ::= BEGIN {body} END");
+        let out = crate::Compiler::<crate::generator::rasn::Rasn, _>::new().add_asn_literal(&src).compile_to_string();
+        let Ok(res) = out else { vob!(cx, "C14.pipeline.compiles", false); return; };
+        let Some((attrs, variants)) = item_of(&res.generated, "E") else { vob!(cx, "C14.pipeline.compiles", false); return; };
+        let got: Vec<(String, String, bool)> = variants.iter().map(|v| { let d = match v.rfind(']') { Some(p) => v[p + 1..].trim(), None => v.trim() }; let mut p = d.split('='); (p.next().unwrap_or("").trim().to_string(), p.next().unwrap_or("").replace(' ', ""), v.contains("extension_addition")) }).collect();
+        let names: Vec<String> = (0..n_root).map(|i| format!("r{i}")).chain((0..n_add).map(|i| format!("x{i}"))).collect();
+        vob!(cx, "C14.pipeline.identifiers_in_source_order", got.iter().map(|g| g.0.clone()).collect::<Vec<_>>() == names);
+        vob!(cx, "C14.pipeline.numbers_are_those_of_x680_clause_20", got.iter().map(|g| g.1.clone()).collect::<Vec<_>>() == numbers.iter().map(|n| n.to_string()).collect::<Vec<_>>());
+        let mut sorted = numbers.clone(); sorted.sort(); sorted.dedup();
+        vob!(cx, "C14.pipeline.numbers_are_distinct", sorted.len() == numbers.len() && { let mut g: Vec<&String> = got.iter().map(|g| &g.1).collect(); g.sort(); g.dedup(); g.len() == got.len() });
+        vob!(cx, "C05.pipeline_enumerated.additions_exactly_after_the_marker", got.iter().enumerate().all(|(i, g)| g.2 == (i >= n_root)));
+        vob!(cx, "C05.pipeline_enumerated.extensible_iff_marker", attrs.contains("non_exhaustive") == marker);
+    }
+    #[cfg(kani)]
+    { let _ = (cx, max_root, max_add); }
+}
+pub fn contract_pipeline_enumerated_quick<C: Ctx>(cx: &mut C) { contract_pipeline_enumerated(cx, 3, 2) }
+pub fn contract_pipeline_enumerated_full<C: Ctx>(cx: &mut C) { contract_pipeline_enumerated(cx, 5, 3) }
+
+/// C05 — the property's own quantifier through the whole pipeline for SEQUENCE / SET / CHOICE: 0..=2 root components, marker
+/// or not, up to 3 additions each a plain component or a [[ ]] group of one or two components with / without version
+/// number, top-level or as an anonymous nested type, with / without EXTENSIBILITY IMPLIED.
+pub fn contract_pipeline_extensibility<C: Ctx>(cx: &mut C) {
+    #[cfg(not(kani))]
+    {
+        let kind = cx.choose(3);
+        let implied = cx.any_bool();
+        let nested = cx.any_bool();
+        let n_root = if kind == 2 { 1 + cx.choose(2) } else { cx.choose(3) };
+        let marker = cx.any_bool();
+        let n_add = if marker { cx.choose(4) } else { 0 };
+        // 0 plain, 1 group of one, 2 group of two, 3 group of two with version number
+        let adds: Vec<usize> = (0..n_add).map(|_| cx.choose(4)).collect();
+        if !cx.assume(n_root + n_add > 0 || kind != 2) { return; }
+        // the lexer rejects a [[ ]] group inside a SET outright (a loud "unsupported notation" failure, not part of this claim)
+        if !cx.assume(!(kind == 1 && adds.iter().any(|a| *a > 0))) { return; }
+        // ... and a version number inside a group of a CHOICE
+        if !cx.assume(!(kind == 2 && adds.iter().any(|a| *a == 3))) { return; }
+        let comp = |name: &str| if kind == 2 { format!("{name} BOOLEAN") } else { format!("{name} BOOLEAN OPTIONAL") };
+        let mut items: Vec<String> = (0..n_root).map(|i| comp(&format!("r{i}"))).collect();
+        if marker { items.push("...".into()); }
+        // expected members after the marker: (name, is_group, grouped names)
+        let mut expected: Vec<(String, bool, Vec<String>)> = vec![];
+        for (i, a) in adds.iter().enumerate() {
+            match a {
+                0 => { items.push(comp(&format!("x{i}"))); expected.push((format!("x{i}"), false, vec![])); }
+                1 => { items.push(format!("[[ {} ]]", comp(&format!("g{i}a")))); expected.push((format!("ext_group_g{i}a"), true, vec![format!("g{i}a")])); }
+                k => { items.push(format!("[[ {}{}, {} ]]", if *k == 3 { format!("{}: ", i + 2) } else { String::new() }, comp(&format!("g{i}a")), comp(&format!("g{i}b")))); expected.push((format!("ext_group_g{i}a"), true, vec![format!("g{i}a"), format!("g{i}b")])); }
+            }
+        }
+        let ty = format!("{} {{ {} }}", ["SEQUENCE", "SET", "CHOICE"][kind], items.join(", "));
+        let body = if nested { format!("T ::= SEQUENCE {{ w {ty} }}") } else { format!("T ::= {ty}") };
+        cx.describe(|| format!("{}{body}", if implied { "EXTENSIBILITY IMPLIED: " } else { "" }));
+        let src = format!("M DEFINITIONS AUTOMATIC TAGS {}::= BEGIN {body} END", if implied { "EXTENSIBILITY IMPLIED " } else { "" });
+        let out = crate::Compiler::<crate::generator::rasn::Rasn, _>::new().add_asn_literal(&src).compile_to_string();
+        let Ok(res) = out else { vob!(cx, "C05.pipeline.compiles", false); return; };
+        let g = &res.generated;
+        let holder = if nested { "TW" } else { "T" };
+        let Some((_, fields)) = item_of(g, holder) else { vob!(cx, "C05.pipeline.compiles", false); return; };
+        let attrs = struct_or_enum_attrs(g, holder).unwrap_or_default();
+        vob!(cx, "C05.pipeline.extensible_iff_marker_or_extensibility_implied", attrs.contains("non_exhaustive") == (marker || implied));
+        // member list as the property describes it
+        let mut want: Vec<(String, &str)> = (0..n_root).map(|i| (format!("r{i}"), "root")).collect();
+        for (name, is_group, grouped) in &expected {
+            if *is_group && kind != 2 { want.push((name.clone(), "group")); }
+            else if *is_group { for gname in grouped { want.push((gname.clone(), "addition")); } }
+            else { want.push((name.clone(), "addition")); }
+        }
+        let field_name = |f: &String| -> String { if kind == 2 { let d = match f.rfind(']') { Some(p) => f[p + 1..].trim(), None => f.trim() }; d.split('(').next().unwrap_or("").trim().to_string() } else { f.split("pub ").nth(1).and_then(|r| r.split(" :").next()).unwrap_or("").trim().to_string() } };
+        let names_ok = fields.len() == want.len() && fields.iter().zip(&want).all(|(f, w)| field_name(f) == w.0);
+        vob!(cx, "C05.pipeline.members_in_source_order_one_per_component_or_group", names_ok);
+        if !names_ok { return; }
+        let marks_ok = fields.iter().zip(&want).all(|(f, w)| match w.1 {
+            "root" => !f.contains("extension_addition"),
+            "addition" => f.contains("extension_addition") && !f.contains("extension_addition_group"),
+            _ => f.contains("extension_addition_group") && f.contains(": Option <"),
+        });
+        vob!(cx, "C05.pipeline.additions_and_groups_are_marked_exactly_after_the_marker", marks_ok);
+        if kind != 2 {
+            let mut groups_ok = true;
+            for (name, is_group, grouped) in &expected {
+                if !*is_group { continue; }
+                let f = fields.iter().find(|f| field_name(f) == *name).cloned().unwrap_or_default();
+                let ty_name = f.rsplit(':').next().unwrap_or("").replace("Option <", "").replace('>', "").trim().to_string();
+                let inner = item_of(g, &ty_name).map(|(_, fs)| fs.iter().map(|x| x.split("pub ").nth(1).and_then(|r| r.split(" :").next()).unwrap_or("").trim().to_string()).collect::<Vec<_>>());
+                groups_ok = groups_ok && inner.as_ref() == Some(grouped);
+            }
+            vob!(cx, "C05.pipeline.each_group_contains_exactly_its_components_in_order", groups_ok);
+        }
+    }
+    #[cfg(kani)]
+    { let _ = cx; }
 }
 
 /// C02 / C06 — DEFAULT of an INTEGER component, whole pipeline: the default function returns the type of the field, and its
